@@ -90,7 +90,9 @@ type feffect struct {
 	capture int
 	// capture2 > 0: likewise, the (capture2-1)-th argument (signed or unsigned) into `arg2`
 	capture2 int
-	seen     bool
+	// capAll: every argument of the call (bool as 0/1, unsigned through Int.ofNat) into `args : List Int`
+	capAll bool
+	seen   bool
 }
 
 // fmop: a mantissa statement (matched by its source text) that is recorded in the output field
@@ -217,7 +219,7 @@ func (t *ftr) effect(ce *ast.CallExpr) *feffect {
 		}
 	}
 	for _, e := range t.f.effects {
-		if !strings.Contains(e.src, "(") && e.src == fun {
+		if e.src == fun {
 			return e
 		}
 	}
@@ -227,6 +229,15 @@ func (t *ftr) effect(ce *ast.CallExpr) *feffect {
 func (t *ftr) captures() bool {
 	for _, e := range t.f.effects {
 		if e.capture > 0 {
+			return true
+		}
+	}
+	return false
+}
+
+func (t *ftr) capturesAll() bool {
+	for _, e := range t.f.effects {
+		if e.capAll {
 			return true
 		}
 	}
@@ -244,6 +255,24 @@ func (t *ftr) captures2() bool {
 
 // captureArg renders `let arg : Int := …` for an effect that captures an argument.
 func (t *ftr) captureArg(ef *feffect, ce *ast.CallExpr, c fctx) string {
+	if ef.capAll {
+		var vals []string
+		for _, a := range ce.Args {
+			ty, ok := t.typeOf(unparen(a))
+			if !ok {
+				return c.indent + t.fail(a, "captured argument has no scalar type") + "\n"
+			}
+			v := t.ex(a, c)
+			switch ty.k {
+			case kBool:
+				v = "(if " + v + " then (1 : Int) else (0 : Int))"
+			case kNat:
+				v = "(Int.ofNat " + v + ")"
+			}
+			vals = append(vals, v)
+		}
+		return fmt.Sprintf("%slet args : List Int := [%s]\n", c.indent, strings.Join(vals, ", "))
+	}
 	if ef.capture == 0 {
 		return ""
 	}
@@ -538,6 +567,9 @@ func (t *ftr) ret(vals []string, outcome int, c fctx) string {
 		}
 		if t.captures2() {
 			fs = append(fs, "arg2 := arg2")
+		}
+		if t.capturesAll() {
+			fs = append(fs, "args := args")
 		}
 		if len(t.f.mops) > 0 {
 			fs = append(fs, "mtrace := mtrace")
@@ -1336,6 +1368,13 @@ func baseFacts() []*fact {
 			"tv", "x.intMant().toUint64()#0", "tok", "x.intMant().toUint64()#1")},
 		{lean: "Uint64", fn: "Decimal.Uint64", params: ps("form", "x.form", "neg", "x.neg", "exp", "x.exp", "minPrec", "x.MinPrec()",
 			"rv", "x.intMant().toUint64()#0", "rok", "x.intMant().toUint64()#1")},
+		{lean: "SetInt64", fn: "Decimal.SetInt64", stateful: true, params: ps("x", "x"),
+			doc:     "args = the (neg, |x| as uint64, exp) handed to setBits64",
+			effects: []*feffect{{src: "z.setBits64", code: 1, capAll: true}}},
+		{lean: "SetUint64", fn: "Decimal.SetUint64", stateful: true, params: ps("x", "x"),
+			effects: []*feffect{{src: "z.setBits64", code: 1, capAll: true}}},
+		{lean: "NewDecimal", fn: "NewDecimal", stateful: true, params: ps("x", "x", "e", "exp"),
+			effects: []*feffect{{src: "new(Decimal).setBits64", code: 1, capAll: true}}},
 		{lean: "Abs", fn: "Decimal.Abs", stateful: true,
 			doc:     "the sign after z.Set(x) (sneg = sign left by Set)",
 			params:  append(ps("sneg", "<sign after Set>"), st("zNeg", "z.neg")...),
@@ -1548,6 +1587,9 @@ func genFacts(p *pkgInfo) (string, []string) {
 				if t.captures2() {
 					text += "  let arg2 : Int := 0\n"
 				}
+				if t.capturesAll() {
+					text += "  let args : List Int := []\n"
+				}
 				if len(f.mops) > 0 {
 					text += "  let mtrace : List (Nat × List Int) := []\n"
 				}
@@ -1620,6 +1662,9 @@ func genFacts(p *pkgInfo) (string, []string) {
 			}
 			if t.captures2() {
 				sb.WriteString("  arg2 : Int\n")
+			}
+			if t.capturesAll() {
+				sb.WriteString("  args : List Int\n")
 			}
 			if len(f.mops) > 0 {
 				sb.WriteString("  mtrace : List (Nat × List Int)\n")
